@@ -1,7 +1,6 @@
 package s3afero
 
 import (
-	"crypto/md5"
 	"encoding/hex"
 	"fmt"
 	"io"
@@ -491,32 +490,12 @@ func (db *MultiBucketBackend) PutObject(
 		}
 	}
 
-	f, err := db.bucketFs.Create(objectFilePath)
+	hash, err := writeObjectFile(db.bucketFs, objectFilePath, input, size)
 	if err != nil {
+		// don't leave directories behind that were only created for this upload
+		removeEmptyParents(db.bucketFs, objectPath, bucketName)
 		return result, err
 	}
-
-	var closed bool
-	defer func() {
-		// Unfortunately, afero's MemMapFs updates the mtime if you double-close, which
-		// highlights that other afero.Fs implementations may have side effects here::
-		if !closed {
-			f.Close()
-		}
-	}()
-
-	hasher := md5.New()
-	w := io.MultiWriter(f, hasher)
-	if _, err := io.Copy(w, input); err != nil {
-		return result, err
-	}
-
-	// We have to close here before we stat the file as some filesystems don't update the
-	// mtime until after close:
-	if err := f.Close(); err != nil {
-		return result, err
-	}
-	closed = true
 
 	stat, err := db.bucketFs.Stat(objectFilePath)
 	if err != nil {
@@ -525,7 +504,7 @@ func (db *MultiBucketBackend) PutObject(
 
 	storedMeta := &Metadata{
 		File:    objectPath,
-		Hash:    hasher.Sum(nil),
+		Hash:    hash,
 		Meta:    meta,
 		Size:    stat.Size(),
 		ModTime: stat.ModTime(),
